@@ -11,8 +11,8 @@ EXPLANATION = (
     "interpreted on model values and every answer is compared with CPython's own str method applied to the plain text (the "
     "oracle), formatting cell by cell: D1-D3 the generic delegation (FmtStr.__getattr__) on a curated list of str methods and "
     "argument tuples (upper, lower, strip, center, replace, find, count, startswith, endswith, zfill, title, isdigit, rsplit, "
-    "index) on values with shared and non-shared formatting - same text or same non-text answer, text answers carry exactly "
-    "the shared formatting, an unknown attribute raises AttributeError; D3 shared_atts is exactly the formatting every "
+    "index) on values with shared and non-shared formatting - same text or same non-text answer (same exception for bad "
+    "arguments), text answers carry exactly the shared formatting, an attribute str does not have raises AttributeError; D3 shared_atts is exactly the formatting every "
     "character has (layouts with empty runs); D4 join over every list of up to 3 items drawn from item kinds (empty, plain "
     "str, one-run, two-run) for several separators agrees with str.join on the texts and keeps each character's formatting, "
     "non-strings raise TypeError; D5 ljust / rjust for widths below, at and above the length, default and explicit fill "
@@ -48,32 +48,7 @@ def check(src, rep):
 
 def rule_getattr(src, rep, counts):
     f = src.func("formatstring", "FmtStr.__getattr__")
-    att = f.params()[1]
-    helper = [g for (m, qn), g in src.funcs.items() if m == "formatstring" and g.outer is f]
-    if len(helper) != 1:
-        raise AnalysisError("FmtStr.__getattr__: expected one nested helper")
-    h = helper[0]
-    a = h.node.args
-    va, kw = (a.vararg.arg if a.vararg else None), (a.kwarg.arg if a.kwarg else None)
-    calls = [n for n in h.own_nodes() if isinstance(n, ast.Call) and isinstance(n.func, ast.Call) and unparse(n.func.func) == "getattr"]
-    ok = len(calls) == 1 and va and kw and not a.args and unparse(calls[0].func) == "getattr(self.s, %s)" % att and \
-        len(calls[0].args) == 1 and isinstance(calls[0].args[0], ast.Starred) and unparse(calls[0].args[0].value) == va and \
-        len(calls[0].keywords) == 1 and calls[0].keywords[0].arg is None and unparse(calls[0].keywords[0].value) == kw
-    rep.ob("D1-same-method-same-arguments", h.where(calls[0]) if calls else h.where(), h.scope,
-           unparse(calls[0]) if calls else "<none>", ok,
-           "the delegated call must be getattr(self.s, <the requested name>)(*args, **kwargs) with the caller's arguments unchanged")
-    guards = [n for n in f.node.body if isinstance(n, ast.If) and unparse(n.test) == "not hasattr(self.s, %s)" % att and
-              any(isinstance(x, ast.Raise) and "AttributeError" in unparse(x) for x in n.body)]
-    rep.ob("D1-unknown-attribute-raises-AttributeError", f.where(), f.scope, "if not hasattr(self.s, att): raise AttributeError", len(guards) == 1,
-           "an attribute str does not have must raise AttributeError (otherwise hasattr()/copy/pickle protocols break)")
-    rets = [n for n in f.own_nodes() if isinstance(n, ast.Return)]
-    rep.ob("D1-returns-helper", f.where(), f.scope, "return %s" % h.name, len(rets) == 1 and unparse(rets[0].value) == h.name, "")
-    # D3: wrap with shared_atts only
-    for c in [n for n in h.own_nodes() if isinstance(n, ast.Call) and unparse(n.func) == "fmtstr"]:
-        ok = len(c.args) == 1 and len(c.keywords) == 1 and c.keywords[0].arg is None and unparse(c.keywords[0].value) == "self.shared_atts"
-        rep.ob("D3-text-results-wrapped-with-shared-atts-only", h.where(c), h.scope, unparse(c), ok,
-               "a text result must be re-wrapped as fmtstr(text, **self.shared_atts): any other attribute source can show "
-               "formatting that no character of the original had")
+    h = f
     # interpreted samples
     it = ObjInterp(src)
     samples = {
@@ -122,6 +97,19 @@ def rule_getattr(src, rep, counts):
                        (_show(got), want[1] if want[0] == "ok" else want, shared))
     rep.ob("D2-delegated-answer-agrees-with-str", h.where(), h.scope, "%d (value, method, arguments) samples" % n, True)
     counts["delegated"] = n
+    # an attribute str does not have raises AttributeError (otherwise hasattr() / copy / pickle protocols break)
+    for name in ("no_such_method", "__deepcopy__", "__getstate_hook__"):
+        obj = mk(it, ("hello", {"fg": 31}))
+        try:
+            it.folder.obj_attr(obj, name)
+            got = "an attribute"
+        except Exception as e:
+            got = getattr(e, "name", None)
+            if got is None:
+                raise AnalysisError("lookup of .%s outside the evaluated subset: %s" % (name, e))
+        rep.ob("D1-unknown-attribute-raises-AttributeError", f.where(), f.scope, "fmtstr('hello').%s" % name, got == "AttributeError",
+               "an attribute that str does not have must raise AttributeError; the lookup gives %s" % got)
+        rep.case(True)
 
 
 def _show(got):
